@@ -51,7 +51,9 @@ def spell(rng, body):
 
 
 LEADING = ['y', 'a*b', 'a+b', 'a-b', '-a', '2*a - b', 'max(a, b)', '(a+b)*c', 'a/b + c', '0.0', '', 'x1**2',
-           'a*b*c', '-(a+b)', 'sqrt(a*a) + 1', 'LAG_F', 'DEM_GOOD', '2', 'y + y']
+           'a*b*c', '-(a+b)', 'sqrt(a*a) + 1', 'LAG_F', 'DEM_GOOD', '2', 'y + y',
+           # comparisons and keyword-free calls containing '=' characters: the text after the first '=' is the expression
+           '(a >= b)*c', '(a <= b)*c + 1', '(a == b) + y', '(a != b)*c']
 
 JOIN_TERMS = ['x', '-x', '+y', 'a*b', '-a*b', '+ c', '- c', '(a+b)', '-(a+b)', '+(a-b)', '1e+3*y', 'max(a+b, c)',
               '2', '-2.5', ' x1 ', 'HH__F', '-HH__F*2', 'a/b']
